@@ -24,9 +24,9 @@ order <= 2 per axis, |centre| <= 1, |moment origin| <= 1:
   * truncation to [-L, L]: the slowest decay is degree 10 with p = 0.6 centred at |c| = 1: the tail beyond
     L = 9.375 = 50 h is < 2e-14 of the integral of the absolute value (L = 8 gives 2e-9, L = 9 7e-13).
   So the rule has 101^3 = 1 030 301 points, weight h^3 (h/2 per axis at the box faces), and converges to ~1e-13 for
-  every generated basis, far below the 1e-10 of the quantifier; tolerance of the comparison is the property's
-  1e-8 (absolute for O(1) quantities, times max(1, largest analytic element) for moments / kinetic, times
-  sum|P_ab| for the traces).  Separability is used for the GRID and its weights only; all function values come
+  every generated basis, far below the 1e-10 of the quantifier; tolerance of the comparison is 1e-8 for the matrices
+  (absolute for O(1) quantities, times max(1, largest analytic element) for moments / kinetic) and the quantifier's
+  1e-10 times sum|P_ab| (times max|T|) for the traces.  Separability is used for the GRID and its weights only; all function values come
   from the library.  The grid is processed in x-slabs (5 planes = 51 005 points) spread over the worker pool.
   The error of the coarser rule 2h (every second point) is recorded to document the geometric convergence
   (typically 1e-3 .. 1e-6 at 2h against 1e-13 at h).
@@ -57,6 +57,11 @@ NHALF = 50
 NPTS = 2 * NHALF + 1
 SLAB = 5
 TOL = 1e-8
+# the traces int rho = tr(P S), int t+ = tr(P T): 1e-10 x sum|P_ab| (x max|T|), the convergence bound of the property's
+# quantifier ("a uniform-grid trapezoid rule converges geometrically to below 1e-10"); the rule used here is good to
+# ~1e-13 and the observed error is ~1e-15 of that scale.  (With 1e-8 the check saw a density whose small values are
+# flushed to zero - integral off by 4e-7 whatever the size of P - only for sum|P_ab| < 40.)
+TOL_TRACE = 1e-10
 TOL_EVAL = 1e-9
 EXP_LO, EXP_HI = 0.3, 3.0
 LMAX = 4
@@ -68,7 +73,8 @@ RULE = ("bases of 1-3 shells, l in 0..4 (every l and both coordinate types occur
         "plus 3 of the remaining triples with every order <= 2 (thorough: all 27); density matrices P = C C^T "
         "(positive semi-definite, C entries k/4) through evaluate_density / evaluate_posdef_kinetic_energy_density and "
         "a symmetric indefinite P (entries k/4) through evaluate_density_using_evaluated_orbs / "
-        "evaluate_deriv_reduced_density_matrix; trapezoid rule h = 3/16 on [-9.375, 9.375]^3 (101^3 points); a case "
+        "evaluate_deriv_reduced_density_matrix; trapezoid rule h = 3/16 on [-9.375, 9.375]^3 (101^3 points: the box contains "
+        "the tails where 0 < rho < 1e-8); tolerance 1e-8 for the matrices, 1e-10 x sum|P_ab| for the traces; a case "
         "is non-trivial when l > 0 or K > 1 or M > 1 or more than one shell; distinct by the hash of the exact input")
 ASSUMPTIONS = [
     "the quadrature is supporting search, not a proof object: the analytic statement 'integral of a product of two "
@@ -306,7 +312,8 @@ def quadrature(pool, case):
 # ----------------------------------------------------------------------------------------------
 # comparison of one case
 # ----------------------------------------------------------------------------------------------
-def _worst(name, quad, ref, tol, errs):
+def _worst(name, quad, ref, tol, errs, rel=None):
+    rel = TOL if rel is None else rel
     quad = np.asarray(quad, dtype=float)
     ref = np.asarray(ref, dtype=float)
     if quad.shape != ref.shape:
@@ -315,7 +322,7 @@ def _worst(name, quad, ref, tol, errs):
         return {"kind": "nonfinite", "check": name}
     diff = np.abs(quad - ref)
     e = float(diff.max()) if diff.size else 0.0
-    errs[name] = max(errs.get(name, 0.0), e / (tol / TOL))       # error in units where the tolerance is 1e-8
+    errs[name] = max(errs.get(name, 0.0), e / (tol / rel))       # error in units of the scale the tolerance is relative to
     if e > tol:
         idx = np.unravel_index(int(diff.argmax()), diff.shape) if diff.ndim else ()
         return {"kind": "value", "check": name, "index": [int(i) for i in idx],
@@ -414,18 +421,19 @@ def eval_case(model, case, pool):
     Ppsd, Psym = _fmat(Ppsd), _fmat(Psym)
     errs = res["errs"]
     tmax = max(1.0, float(np.abs(T).max()))
-    checks = [("overlap", q["S"], S, TOL)]
+    checks = [("overlap", q["S"], S, TOL, TOL)]
     for dnum, o in enumerate(orders):
         ref = M[:, :, dnum]
-        checks.append(("moment %s" % (tuple(o),), q["M"][:, :, dnum], ref, TOL * max(1.0, float(np.abs(ref).max()))))
-    checks.append(("kinetic", q["T"], T, TOL * tmax))
+        checks.append(("moment %s" % (tuple(o),), q["M"][:, :, dnum], ref, TOL * max(1.0, float(np.abs(ref).max())), TOL))
+    checks.append(("kinetic", q["T"], T, TOL * tmax, TOL))
     for nm, P in (("psd", Ppsd), ("sym", Psym)):
         pa = max(1.0, float(np.abs(P).sum()))
-        checks.append(("density %s: int rho vs tr(P S)" % nm, q["rho_" + nm], float(np.sum(P * S)), TOL * pa))
-        checks.append(("posdef KED %s: int t+ vs tr(P T)" % nm, q["ked_" + nm], float(np.sum(P * T)), TOL * pa * tmax))
+        checks.append(("density %s: int rho vs tr(P S)" % nm, q["rho_" + nm], float(np.sum(P * S)), TOL_TRACE * pa, TOL_TRACE))
+        checks.append(("posdef KED %s: int t+ vs tr(P T)" % nm, q["ked_" + nm], float(np.sum(P * T)), TOL_TRACE * pa * tmax,
+                       TOL_TRACE))
     detail = None
-    for nm, quad, ref, tol in checks:
-        dd = _worst(nm.split(" ")[0] if nm.startswith("moment") else nm, quad, ref, tol, errs)
+    for nm, quad, ref, tol, rel in checks:
+        dd = _worst(nm.split(" ")[0] if nm.startswith("moment") else nm, quad, ref, tol, errs, rel)
         if dd is not None and detail is None:
             dd["check"] = nm
             detail = dd
@@ -526,7 +534,7 @@ def run(rep, tier, seed, model, replay):
                     rep.violation(case, detail)
     EXTRA["quadrature"] = {
         "rule": "trapezoid, uniform product grid", "h": str(H), "half_width": str(H * NHALF), "points_per_axis": NPTS,
-        "points": NPTS ** 3, "slab_planes": SLAB, "tolerance": TOL,
+        "points": NPTS ** 3, "slab_planes": SLAB, "tolerance": TOL, "tolerance_traces": TOL_TRACE,
         "selftest_worst_1d_relative_error": st,
         "worst_abs_error_in_units_of_tolerance_scale": {k: v for k, v in sorted(worst.items()) if k != "overlap_2h"},
         "worst_overlap_error_of_the_2h_rule": worst.get("overlap_2h"),
